@@ -14,6 +14,7 @@ import (
 	"github.com/tetratelabs/wazero/internal/internalapi"
 	"github.com/tetratelabs/wazero/internal/leb128"
 	internalsys "github.com/tetratelabs/wazero/internal/sys"
+	"github.com/tetratelabs/wazero/internal/verifhook"
 	"github.com/tetratelabs/wazero/sys"
 )
 
@@ -330,10 +331,12 @@ func (s *Store) Instantiate(
 	}
 
 	// Now that the instantiation is complete without error, add it.
+	verifhook.Point("store.instantiate.before-register")
 	if err = s.registerModule(m); err != nil {
 		_ = m.Close(ctx)
 		return nil, err
 	}
+	verifhook.Point("store.instantiate.after-register")
 	return m, nil
 }
 
